@@ -20,3 +20,8 @@ def bounded(ctx):
     c15.sequences(ctx)
     c15.random_walks(ctx)
     c15.known_witnesses(ctx)
+
+
+# T1 (PyVC): the targets tagged C15 in their sidecars - CSSStyleSheet.insertRule / deleteRule (an @namespace rule whose URI is still used by a selector is not
+# deleted; the ordering invariant covers @namespace rules) and the selector state machine's New.append (a prefix is resolved through the namespaces in force).
+T1 = [('contracts.cssstylesheet', None), ('contracts.selector', None)]
